@@ -257,12 +257,33 @@ pub fn check_labels(text: &str, planted: &Planted, gates: &Gates) -> Result<bool
     match planted.kind {
         FaultKind::CallMixed | FaultKind::CallBadFormal | FaultKind::CallArgCount | FaultKind::CallBadOutput | FaultKind::CallNotInstance => {
             // label starts at an occurrence of the instance name and ends at the closing ')' of that call
-            if !occ.contains(&s) || !covered.ends_with(')') || covered.contains(';') {
+            // (comments inside the invocation may contain anything: judged with comments removed)
+            let mut bare = String::new();
+            let mut rest = covered;
+            while let Some(a) = rest.find("(*") {
+                bare.push_str(&rest[..a]);
+                match rest[a..].find("*)") {
+                    Some(b) => rest = &rest[a + b + 2..],
+                    None => {
+                        rest = "";
+                    }
+                }
+            }
+            bare.push_str(rest);
+            if !occ.contains(&s) || !covered.ends_with(')') || bare.contains(';') {
                 return Err(("label-wrong-construct".into(), format!("{} label {}..{} covers {:?}; expected the invocation of {:?}", want, s, e, covered, marker)));
             }
         }
         _ => {
-            if !(occ.contains(&s) && covered.eq_ignore_ascii_case(&marker)) {
+            // exactly an occurrence of the name - or, for a value written with its type prefix, the
+            // whole `Type#value` ending in an occurrence of the name
+            let plain = occ.contains(&s) && covered.eq_ignore_ascii_case(&marker);
+            let prefixed = covered.len() > marker.len()
+                && covered.is_char_boundary(covered.len() - marker.len())
+                && occ.contains(&(e - marker.len()))
+                && covered[..covered.len() - marker.len()].trim_end().ends_with('#')
+                && covered[..covered.len() - marker.len()].trim_end().trim_end_matches('#').trim_end().chars().all(|c| c.is_ascii_alphanumeric() || c == '_');
+            if !(plain || prefixed) {
                 return Err((
                     "label-wrong-construct".into(),
                     format!("{} ({:?}) label {}..{} covers {:?}; expected an occurrence of {:?} (at {:?})", want, d.described, s, e, covered, marker, occ),
